@@ -152,6 +152,13 @@ static ssize_t rd_cb(void *c, char *buf, size_t size) {
     Cookie *ck = (Cookie *)c; FileState &st = S->fs[ck->idx]; const SFile &f = *st.f;
     st.reads++;
     if (st.eof_reported) st.reads_after_eof++;
+    // progress: once faults have stopped (a transient fault fired, or none is attached) the tool must finish the file within
+    // a bounded number of reads; under a permanent fault a retrying tool is let go by turning the stream into EOF
+    if (st.reads > (long)f.data.size() + 2000) {
+        bool permanent = f.ff_kind == "read" && !f.ff_transient;
+        if (permanent) { st.eof_reported = true; return 0; }
+        if (g_armed) { g_abort_what = "read callback invoked " + std::to_string(st.reads) + " times for a file of " + std::to_string(f.data.size()) + " bytes"; longjmp(g_jmp, 4); }
+    }
     if (f.ff_kind == "read" && f.ff_at >= 0 && (long long)st.pos >= f.ff_at && (!st.failed_once || !f.ff_transient)) {
         st.failed_once = true; st.fault_fired = true; errno = f.ff_errno ? f.ff_errno : EIO; return -1;
     }
@@ -399,7 +406,7 @@ struct Exec {
         sim.in_harness++;
         // ---- oracles
         if (dead) {
-            viol(dead == 2 ? "C20:assertion-failure:" + g_abort_expr : dead == 1 ? string("C20:abort") : string("C20:exit-called"), g_abort_what);
+            viol(dead == 2 ? "C20:assertion-failure:" + g_abort_expr : dead == 1 ? string("C20:abort") : dead == 4 ? string("C20:no-progress") : string("C20:exit-called"), g_abort_what);
         } else {
             if (rc != 0) viol("C20:nonzero-exit-status", "eav returned " + std::to_string((int)rc));
             check_output(iv, sim);
